@@ -261,7 +261,7 @@ def run_history(bindir, tag, text, timeout=120):
     for l in out.split('\n'):
         if l.startswith('{'):
             try: recs.append(json.loads(l))
-            except Exception: return rc or 1, recs, out
+            except Exception: break                  # a line cut short (the process was killed): keep what was observed
     return rc, recs, out
 
 # ---------------------------------------------------------------- Coq encoders
